@@ -152,6 +152,7 @@ class Executor:
         self.back_states = None
         self.templates = []            # template invariants: functions poly -> poly (candidate facts t(v) >= 0)
         self._cand_cache = {}
+        self.conserved_coeffs = []     # rule option: coefficients c for the loop-invariant candidates "a + c*b keeps its entry value"
         self.unroll = None             # (loop id, [back-edge states]) while a loop of known length is being expanded
         self.keep_dead_entry_locals = False   # rules that read a local of the entry function at its return
         self.result_facts = None       # fn(trait, method, result symbol name) -> [poly >= 0] assumed about an abstract call's result
@@ -797,16 +798,34 @@ class Executor:
             return IntV(bits, signed, bv=[f(x, y) for x, y in zip(xa, xb)])
         if op in ("Shl", "Shr", "ShlUnchecked", "ShrUnchecked"):
             k = pb.const_value()
-            if k is None:
-                raise Undecided("shift by non-constant %r" % (pb,))
-            k = k % bits
             xa = self.int_bits(a, facts)
-            if op.startswith("Shl"):
-                nb = ([ZERO] * k + xa)[:bits]
-            else:
+
+            def shifted(kk):
+                kk = kk % bits
+                if op.startswith("Shl"):
+                    return ([ZERO] * kk + xa)[:bits]
                 fill = xa[-1] if signed else ZERO
-                nb = xa[k:] + [fill] * k
-            return IntV(bits, signed, bv=nb)
+                return xa[kk:] + [fill] * kk
+            if k is None:
+                # a shift amount that depends on a few bits only (e.g. `x << 2 + (x >> 4)`): if-then-else over its values
+                ats = sorted(pb.atoms(), key=repr)
+                if not ats or len(ats) > 4 or not all(is_bool_atom(x) for x in ats):
+                    raise Undecided("shift by non-constant %r" % (pb,))
+                nb = [ZERO] * bits
+                for mask in range(1 << len(ats)):
+                    asg = {x: (mask >> i) & 1 for i, x in enumerate(ats)}
+                    kk = pb.subst(asg).const_value()
+                    if kk is None or kk < 0:
+                        raise Undecided("shift by non-constant %r" % (pb,))
+                    if kk >= bits:
+                        raise Undecided("shift amount %d may reach the width of the type (overflow panic in debug builds)" % kk)
+                    cond = ONE
+                    for x, v in asg.items():
+                        cond = cond * (Poly.atom(x) if v else ONE - Poly.atom(x))
+                    sh = shifted(kk)
+                    nb = [nb[i] + cond * sh[i] for i in range(bits)]
+                return IntV(bits, signed, bv=nb)
+            return IntV(bits, signed, bv=shifted(k))
         raise Undecided("binop %s" % op)
 
     def unop(self, st, fr, op, a):
@@ -1355,7 +1374,7 @@ class Executor:
         stable = False
         dropped = set()
         tinv = None
-        for _round in range(20):
+        for _round in range(28):
             probe = st.fork()
             self.havoc(probe, fr, written, lid, inv, tinv)
             log = set()
@@ -1622,11 +1641,54 @@ class Executor:
     def template_invariants(self, st, written, backs, prev):
         """Houdini over the template facts: (location key -> set of template indices) that hold at
         loop entry and at every back edge of the dry run (assuming the previous candidate set)."""
-        if not self.templates and not self.struct_templates:
+        if not self.templates and not self.struct_templates and not self.conserved_coeffs:
             return None
         out = {}
         saved, self.write_log = self.write_log, None
         try:
+            if self.conserved_coeffs:
+                # conserved quantities: for loop-carried integers a, b and a rule-supplied coefficient c, "a + c*b keeps
+                # the value it had at loop entry" (e.g. staged bytes + N x chunks left). Houdini from the top: a new
+                # candidate is assumed in the next dry run, whose back edges then keep or refute it.
+                ql = []
+                for (root, path) in sorted(written, key=repr):
+                    try:
+                        v0 = self.read(st, root, path)
+                    except Undecided:
+                        continue
+                    self.int_leaves(st, root, path, v0, ql)
+                ql = [(r, p, v) for (r, p, v) in ql if isinstance(v, IntV)][:8]
+                for (ra, pa, va) in ql:
+                    for (rb, pb, vb) in ql:
+                        if (ra, pa) == (rb, pb):
+                            continue
+                        for ci, c in enumerate(self.conserved_coeffs):
+                            key = ("Q", (ra, tuple(pa)), (rb, tuple(pb)), ci)
+                            if prev is not None and key in prev and not prev[key]:
+                                out[key] = frozenset()
+                                continue
+                            ok = True
+                            if prev is not None and key in prev:
+                                e0 = st.facts.simplify(va.poly() + c * vb.poly())
+                                for bs in backs:
+                                    try:
+                                        xa, xb = self.read(bs, ra, pa), self.read(bs, rb, pb)
+                                    except Undecided:
+                                        ok = False
+                                        break
+                                    if not (isinstance(xa, IntV) and isinstance(xb, IntV)):
+                                        ok = False
+                                        break
+                                    d = bs.facts.simplify(xa.poly() + c * xb.poly() - e0)
+                                    if d.const_value() == 0:
+                                        continue
+                                    if bs.facts.entails_ge0(d, 2, 1, use_eq=True, quick_refute=True) is None or \
+                                            bs.facts.entails_ge0(-d, 2, 1, use_eq=True, quick_refute=True) is None:
+                                        ok = False
+                                        break
+                            out[key] = frozenset({0}) if ok else frozenset()
+                            if os.environ.get("AIM_DEBUG_LOOP") == "5":
+                                print("QCAND", self.describe_loc(ra, pa), "+", repr(c), "*", self.describe_loc(rb, pb), "->", ok, "checked" if (prev is not None and key in prev) else "new")
             for (root, path) in written:
                 try:
                     v0 = self.read(st, root, path)
@@ -1724,7 +1786,8 @@ class Executor:
             return
         if isinstance(v, IntV):
             out.append((root, path, v))
-        elif isinstance(v, Agg) and v.kind in ("adt", "tuple") and (v.kind == "tuple" or (v.name in self.F.adts and self.F.adts[v.name]["kind"] == "struct")):
+        elif isinstance(v, Agg) and v.kind in ("adt", "tuple") and (v.kind == "tuple" or (v.name in self.F.adts and self.F.adts[v.name]["kind"] == "struct")
+                                                                       or (v.name or "").startswith("core::slice::chunks_exact")):
             for i, f in enumerate(v.fields):
                 self.int_leaves(st, root, path + (("f", i, None),), f, out, depth + 1)
 
@@ -1778,7 +1841,8 @@ class Executor:
                             hi = min([t for t in self.THRESHOLDS if t >= hi] + [thi])
                         if lo < plo:
                             lo = max([-t - 1 for t in self.THRESHOLDS if -t - 1 <= lo] + [tlo]) if lo < 0 else 0
-                        if rnd >= 14:
+                        if rnd >= 7:
+                            # still moving after the thresholds had their chance: no interval for this location
                             dropped.add(key)
                             continue
                     if lo <= tlo and hi >= thi:
@@ -1797,10 +1861,33 @@ class Executor:
                 continue  # local of a frame created inside the loop
             if root[0] == "O" and root not in st.mem and root not in known_roots:
                 continue  # object first seen inside the loop (fresh per iteration)
+            # a write through a symbolic index / symbolic sub-slice is a write to the whole array (the symbols in
+            # the path step are fresh in every dry run and would keep the written set from stabilising)
+            for k_, step in enumerate(path):
+                if step[0] in ("ix", "sx"):
+                    path = tuple(path[:k_])
+                    break
             out.add((root, path))
         return out
 
     def havoc(self, st, fr, written, lid, inv=None, tinv=None):
+        # conserved quantities kept by the Houdini run: their entry values, read before anything is havoced
+        qkeep = []
+        if tinv and self.conserved_coeffs:
+            saved_q, self.write_log = self.write_log, None
+            try:
+                for key, val in tinv.items():
+                    if key[0] == "Q" and val:
+                        (_, (ra, pa), (rb, pb), ci) = key
+                        try:
+                            va, vb = self.read(st, ra, pa), self.read(st, rb, pb)
+                        except Undecided:
+                            continue
+                        if isinstance(va, IntV) and isinstance(vb, IntV) and ci < len(self.conserved_coeffs):
+                            c = self.conserved_coeffs[ci]
+                            qkeep.append((ra, pa, rb, pb, c, st.facts.simplify(va.poly() + c * vb.poly())))
+            finally:
+                self.write_log = saved_q
         # coarsen: if a prefix is written, drop longer paths
         items = sorted(written, key=lambda rp: len(rp[1]))
         done = []
@@ -1841,6 +1928,20 @@ class Executor:
                     for (r, p_, v_) in leaves:
                         for ti in tinv.get((r, tuple((s_[0], s_[1]) for s_ in p_)), ()):
                             st.facts.add_fact_ge0(self.templates[ti](v_.poly()))
+            finally:
+                self.write_log = saved
+        if qkeep:
+            saved, self.write_log = self.write_log, None
+            try:
+                for (ra, pa, rb, pb, c, e0) in qkeep:
+                    try:
+                        xa, xb = self.read(st, ra, pa), self.read(st, rb, pb)
+                    except Undecided:
+                        continue
+                    if isinstance(xa, IntV) and isinstance(xb, IntV):
+                        d = xa.poly() + c * xb.poly() - e0
+                        st.facts.add_fact_ge0(d)
+                        st.facts.add_fact_ge0(-d)
             finally:
                 self.write_log = saved
         if tinv and self.struct_templates:
@@ -2395,7 +2496,8 @@ class Executor:
         for a in args:
             if isinstance(a, Ptr):
                 sig_mut.append(a)
-        self.havoc_mut_args(st, args, name)
+        if not pure:
+            self.havoc_mut_args(st, args, name)
         return [(st, ret)]
 
     def reaches_effects(self, v, depth=0):
